@@ -1810,6 +1810,8 @@ def _put_one_withitem_optional_vars(
 
     ret = _put_one_exprlike_optional(self, code, idx, field, child, static, options)
 
+    self.a.context_expr.f._touch()  # enclosing parentheses may have changed owner between withitem and context_expr
+
     if (parent := self.parent) and parent.a.__class__ in ASTS_LEAF_WITH:
         _fix_With_items(parent)
 
